@@ -458,4 +458,13 @@ def reportSlot (r : Report) (s : Sys) (t : Nat) : Option Nat :=
       | .lengthAfter => some (s.recs.length - 1)
   | _ => none
 
+/-! ### other writers of the record file beside the append (round 7)
+
+The model's file is changed by the `write` step of appenders only; that is sound only if no caller of
+AppendRecord also creates, truncates or rewrites the same file outside the lock protocol (an
+`os.Create` after an unlocked existence check, a truncate to a size read before the lock).
+`appendSideWriters` (Gen/Lock.lean) lists, per caller, the other calls given the same path. -/
+def noSideWriterOf (callers : List (String × String)) : Bool :=
+  !callers.isEmpty && callers.all (fun f => f.2 == "no-other-writer" || f.2 == "exclusive-slot-writer")
+
 end PttVerif.C14
